@@ -481,7 +481,7 @@ def obligations(tier):
     else:
         for c in range(NCOMP):
             for d in range(NCOMP):
-                for e in (2, 3, 5):
+                for e in (3,):           # sized: 17 x 17 pairs of composites, every atom below, one atom beside
                     obs.append(Ob(match2, fixed={'c': c, 'd': d, 'e': e}, pre='0 <= a < %d and (b == 3 or b == 0 or b == 5) and ' % NATOM + tpre,
                                   name='match2_c%d_d%d_e%d' % (c, d, e)))
         for c in (0, 1, 2, 3, 4, 6, 7):
